@@ -238,7 +238,20 @@ class CppCodec:
 
     def _stmts(self, stmts, elem, env) -> List:
         out = []
-        for st in stmts:
+        stmts = [s_ for s_ in stmts if s_.kind]
+        for i, st in enumerate(stmts):
+            if st.kind == "IfStmt" and len(st.inner) == 2 and any(y.kind == "ReturnStmt" for y in walk(st.inner[1])) and i + 1 < len(stmts):
+                # early return: `if (c) { ...; return x; }  rest`  ==  if (c) {...} else { rest }
+                c = self._cond(st.inner[0], env)
+                pre = self._expr(st.inner[0], elem, env)
+                t = self._stmt(st.inner[1], elem, env)
+                rest = self._stmts(stmts[i + 1:], elem, env)
+                out += pre
+                if t:
+                    out.append(("if", c, t))
+                if rest:
+                    out.append(("if", ("not", c), rest))
+                return out
             out += self._stmt(st, elem, env)
         return out
 
@@ -251,10 +264,28 @@ class CppCodec:
             parts = st.inner
             cond = parts[2] if len(parts) > 2 else None
             body = parts[-1]
+            pre = self._stmt(parts[0], elem, env) if parts and parts[0].kind == "DeclStmt" else []
             count = self._loop_count(cond, env)
-            return [("loop", count, self._stmt(body, elem, env))]
+            if count == "?" and cond is not None and len(parts) > 3:
+                # count-down form: for (auto left = <word>; left > 0; left--)
+                c0 = cond
+                while c0.kind in ("ImplicitCastExpr", "ParenExpr", "ExprWithCleanups") and c0.inner:
+                    c0 = c0.inner[0]
+                inc = parts[3]
+                if c0.kind == "BinaryOperator" and c0.get("opcode") in (">", "!=") and self.int_value(c0.inner[1]) == 0 and inc.kind == "UnaryOperator" and inc.get("opcode") == "--":
+                    nm = next((y.get("referencedDecl", {}).get("name") for y in walk(c0.inner[0]) if y.kind == "DeclRefExpr"), None)
+                    nm2 = next((y.get("referencedDecl", {}).get("name") for y in walk(inc) if y.kind == "DeclRefExpr"), None)
+                    if nm is not None and nm == nm2 and nm in env:
+                        count = ("clamped", nm, env[nm][2]) if env[nm][0] == "changed" else ("var", nm)
+            return pre + [("loop", count, self._stmt(body, elem, env))]
         if k == "CXXForRangeStmt":
             body = st.inner[-1]
+            # a range over a std::array<T, N> runs N times whatever it holds
+            for x in walk(st):
+                if x.kind in ("VarDecl",) and str(x.get("name", "")).startswith("__range"):
+                    m_ = re.search(r"array<.*,\s*(\d+)[uUlL]*\s*>\s*(const)?\s*&?\s*$", x.qtype or "")
+                    if m_:
+                        return [("loop", int(m_.group(1)), self._stmt(body, elem, env))]
             rng = " ".join(x.get("name", "") for x in walk(st) if x.kind == "MemberExpr")
             return [("loop", ("range", "data_" if "data_" in rng or "GetData" in rng else rng[:20]), self._stmt(body, elem, env))]
         if k == "IfStmt":
@@ -282,6 +313,8 @@ class CppCodec:
                     if effs and effs[-1][0] == "W":
                         env[vd.get("name")] = effs[-1]
                         effs[-1] = ("W", effs[-1][1], ("var", vd.get("name")))
+                    elif not effs and any(y.kind == "MemberExpr" and y.get("name") == "has_value" for i_ in inits for y in walk(i_)):
+                        env[vd.get("name")] = ("some",)
                     out += effs
             return out
         if k == "ReturnStmt":
@@ -340,7 +373,16 @@ class CppCodec:
         return "?"
 
     def _cond(self, cond: CNode, env):
+        c0 = cond
+        while c0 is not None and c0.kind in ("ImplicitCastExpr", "ParenExpr", "ExprWithCleanups", "CXXFunctionalCastExpr", "CStyleCastExpr") and c0.inner:
+            c0 = c0.inner[-1] if c0.kind == "CXXFunctionalCastExpr" else c0.inner[0]
+        if c0 is not None and c0.kind == "UnaryOperator" and c0.get("opcode") == "!" and c0.inner:
+            return ("not", self._cond(c0.inner[0], env))
+        if c0 is not None and c0.kind == "BinaryOperator" and c0.get("opcode") == "==" and len(c0.inner) == 2 and self.int_value(c0.inner[1]) == 0:
+            return ("not", self._cond(c0.inner[0], env))
         for y in walk(cond):
+            if y.kind == "DeclRefExpr" and env.get(y.get("referencedDecl", {}).get("name")) == ("some",):
+                return ("some",)
             if y.kind == "DeclRefExpr" and y.get("referencedDecl", {}).get("name") in env:
                 return ("flag", y["referencedDecl"]["name"])
             if y.kind == "MemberExpr" and y.get("name") == "has_value":
@@ -389,7 +431,7 @@ class CppCodec:
                     txt = " ".join(y.get("name", "") for y in walk(me) if y.kind == "MemberExpr")
                     if "size" in txt:
                         role = "count"
-                    elif "has_value" in txt:
+                    elif "has_value" in txt or any(y.kind == "DeclRefExpr" and env.get(y.get("referencedDecl", {}).get("name")) == ("some",) for y in walk(me)):
                         role = "flag"
                 else:
                     for y in walk(callee):
